@@ -131,6 +131,9 @@ func (i *interpreter) unop(instr *ssa.UnOp, x value) value {
 		if p == nil {
 			panic(runtimeErr("invalid memory address or nil pointer dereference"))
 		}
+		if i.loadHook != nil {
+			i.loadHook(i.curFrame, p)
+		}
 		return load(deref(instr.X.Type()), p)
 	}
 	if sv, ok := x.(*Sym); ok {
@@ -454,6 +457,9 @@ func (i *interpreter) indexValue(elems []value, idx value, what string) value {
 func (i *interpreter) lookup(instr *ssa.Lookup, x, idx value) value {
 	switch x := x.(type) {
 	case *smap:
+		if i.mapAccessHook != nil {
+			i.mapAccessHook(i.curFrame, x, false)
+		}
 		elemT := instr.X.Type().Underlying().(*types.Map).Elem()
 		v, ok := i.mapLookup(x, idx, elemT)
 		if instr.CommaOk {
@@ -521,6 +527,9 @@ func (i *interpreter) callBuiltin(caller *frame, fn *ssa.Builtin, args []value) 
 		i.abort(abortUnsupported, "close(chan)")
 
 	case "delete":
+		if i.mapAccessHook != nil {
+			i.mapAccessHook(caller, args[0].(*smap), true)
+		}
 		i.mapDelete(args[0].(*smap), args[1])
 		return nil
 
@@ -570,6 +579,9 @@ func (i *interpreter) callBuiltin(caller *frame, fn *ssa.Builtin, args []value) 
 		case []value:
 			return len(x)
 		case *smap:
+			if i.mapAccessHook != nil {
+				i.mapAccessHook(caller, x, false)
+			}
 			return x.len()
 		default:
 			panic(fmt.Sprintf("len: illegal operand: %T", x))
@@ -633,6 +645,9 @@ func (i *interpreter) callBuiltin(caller *frame, fn *ssa.Builtin, args []value) 
 func (i *interpreter) rangeIter(x value, site string) iter {
 	switch x := x.(type) {
 	case *smap:
+		if i.mapAccessHook != nil {
+			i.mapAccessHook(i.curFrame, x, false)
+		}
 		return i.newMapIter(x, site)
 	case string, symstr:
 		return &stringIter{b: strBytes(x)}
